@@ -39,7 +39,15 @@ type verifPacketConnAdapter struct {
 	VerifPacketConn
 }
 
-func (verifPacketConnAdapter) SetWriteDeadline(time.Time) error           { return nil }
+func (verifPacketConnAdapter) SetWriteDeadline(time.Time) error { return nil }
+
+// SetReadDeadline is passed on to a simulated socket that has read deadlines.
+func (a verifPacketConnAdapter) SetReadDeadline(t time.Time) error {
+	if d, ok := a.VerifPacketConn.(interface{ SetReadDeadline(t time.Time) error }); ok {
+		return d.SetReadDeadline(t)
+	}
+	return nil
+}
 func (verifPacketConnAdapter) SetMulticastInterface(*net.Interface) error { return nil }
 func (verifPacketConnAdapter) SetMulticastHopLimit(int) error             { return nil }
 func (verifPacketConnAdapter) SetMulticastLoopback(bool) error            { return nil }
